@@ -1,0 +1,7 @@
+//go:build verif
+
+package main
+
+import "github.com/zalf-rpm/Hermes2Go/hermes"
+
+func vevent(point string, kv ...interface{}) { hermes.VEvent(point, kv...) }
